@@ -3,13 +3,27 @@
 R1  stale-flag discipline (T-ORDER): every normal path through `add` to a
     return passes a point where the flag is marked - a store into
     `index_stale` of a value that is true whenever the store is identified:
-    the constant, `self.indexable` itself, or the local that was just stored
-    into `self.indexable` (must-analysis of the locals equal to it); a store
+    the constant, `self.indexable` itself, or a local known to equal
+    `self.indexable` at that point (must-analysis on the CFG: the local that
+    was just stored into it or read from it, and the local that the
+    consistency check of the addition compared with it - after `if
+    self.indexable is not None and x != self.indexable: raise` x equals the
+    use or the use is not fixed yet, after `if self.indexable is None:
+    self.indexable = x` it equals it on both branches); a store
     of anything else clears the mark, except a failed addition putting back,
-    in an exception handler, the value the flag had on entry -, or a branch that
+    in an exception handler, the value the flag had on entry (a saved local
+    or a component of a saved tuple / record, read before any store into the
+    flag) -, or a branch that
     established that the store is not identified and nothing else (forward
     may-analysis on the CFG: `if self.indexable: mark`, a guard clause
-    `if not self.indexable: return`, ...), and the mark follows the write; in
+    `if not self.indexable: return`, `if x: mark` with x equal to the use, ...).
+    The mark follows the write, or nothing between the mark and the write can
+    clear it again (no call whose resolved closure stores into the flag: a
+    mark set first inside the guarded block and put back by the handler is the
+    same flag at the return; a refresh of the index *after* the write takes the
+    new trajectory in).  An add without any mark is reported by what it does
+    store into the flag, or as never marking when nothing in its resolved
+    call closure stores into it.  In
     get_flight / sync / close every use of the index (reads of the index
     variables or of an attribute holding a copy of them, dataset sync/close,
     dropping the index group) is dominated by the lazy `_reindex()`;
@@ -72,10 +86,17 @@ R2  sorted-writer <-> bisect-reader agreement, decided on values, not on
     never None) decide the tests a path takes on such a local (`is None`,
     `< 0`, truth of a flag; a conditional expression forks the path, also
     when it stands inside the test), and contradictory paths drop out.
-    A confirmed hit must be answered: a path on which bounds and equality
-    hold and that returns None, told from an answering path only by a test
-    of the position that some position satisfies (`if not pos: return
-    None` loses position 0), is a violation.
+    A flag bound on several branches stands, on each path, for the test that
+    path bound it to; a chained comparison that holds (`0 <= pos < n`) is its
+    links.  A hit must be answered: a path that returns None and is told from
+    an answering path (bounds and equality confirmed) only by tests of the
+    found slot - or of the position read from trajectory_index - against
+    constants that some slot / position satisfies, with nothing on it that
+    says the slot is out of range or holds another identifier (a disjunctive
+    test is taken apart: one way per disjunct; tests of a sentinel the path
+    itself assigned say nothing), is a violation: `if not pos: return None`,
+    `if not 0 < pos < n: return None`, `if not idx: return None` on the
+    position handed back by a search helper lose slot / trajectory 0.
     A store without files answers from its cache: the element
     of `self._trajectories` selected by equality of its flight_id with the
     request (loop with early return, next(generator, None), filter, list
@@ -157,6 +178,9 @@ def rule_stale(ctx, m):
     # the locals known to equal self.indexable at each point)
     _IDENT = ('self.indexable', 'bool(self.indexable)', 'self.indexable is True', 'self.indexable == True')
 
+    # state: 'eq:x' - the local x equals self.indexable; 'eqn:x' - x equals self.indexable or self.indexable is None
+    # (what the consistency check of an addition leaves behind: `if self.indexable is not None and x != self.indexable:
+    # raise`; the decision `if self.indexable is None: self.indexable = x` then makes it 'eq:x' on both branches)
     def _eq_tr(node, st):
         s_ = node.stmt
         if node.kind != 'stmt' or s_ is None:
@@ -164,15 +188,68 @@ def rule_stale(ctx, m):
         if isinstance(s_, ast.Assign) and len(s_.targets) == 1:
             t_, v_ = s_.targets[0], s_.value
             if norm(t_) == 'self.indexable':
-                return frozenset({v_.id}) if isinstance(v_, ast.Name) else frozenset()
+                return frozenset({'eq:' + v_.id, 'eqn:' + v_.id}) if isinstance(v_, ast.Name) else frozenset()
             if isinstance(t_, ast.Name) and norm(v_) == 'self.indexable':
-                return st | {t_.id}
+                return frozenset(x for x in st if x.split(':', 1)[1] != t_.id) | {'eq:' + t_.id, 'eqn:' + t_.id}
         killed = {norm(t) for t, _, _ in stores_to(s_)} if isinstance(s_, (ast.Assign, ast.AugAssign, ast.AnnAssign, ast.Delete,
                                                                              ast.For, ast.With)) else set()
-        if 'self.indexable' in killed:
+        if 'self.indexable' in killed or (st and any(_sets_use(c) for c in calls_in(s_))):
             return frozenset()
-        return frozenset(x for x in st if x not in killed)
-    eq_ins, _ = g.forward(frozenset(), _eq_tr, lambda a, b: a & b, edge_ok=_normal)
+        return frozenset(x for x in st if x.split(':', 1)[1] not in killed)
+
+    _use_memo: dict = {}
+
+    def _sets_use(c) -> bool:
+        """a call of a repository function that (in its resolved closure) stores into `indexable`"""
+        if id(c) not in _use_memo:
+            from ..resolve import closure as _cl
+            callee = resolve_call(ctx.prog, add, c)
+            _use_memo[id(c)] = callee is not None and any(
+                isinstance(t, ast.Attribute) and t.attr == 'indexable' for f in _cl(ctx.prog, [callee]) for t, _, _ in stores_to(f.node))
+        return _use_memo[id(c)]
+
+    def _eq_atom(e, pol):
+        """what the outcome `e is pol` says: 'none' (self.indexable is None), 'notnone', ('eq', x) or None"""
+        if not (isinstance(e, ast.Compare) and len(e.ops) == 1):
+            return None
+        l_, r_, op = e.left, e.comparators[0], e.ops[0]
+        same = isinstance(op, (ast.Eq, ast.Is)) == pol
+        if not isinstance(op, (ast.Eq, ast.Is, ast.NotEq, ast.IsNot)):
+            return None
+        for a_, b_ in ((l_, r_), (r_, l_)):
+            if norm(a_) == 'self.indexable':
+                if _none_const(b_):
+                    return 'none' if same else 'notnone'
+                if isinstance(b_, ast.Name) and same:
+                    return ('eq', b_.id)
+        return None
+
+    def _disjuncts(e, pol):
+        """the outcome `e is pol` as a disjunction of atomic outcomes"""
+        if isinstance(e, ast.UnaryOp) and isinstance(e.op, ast.Not):
+            return _disjuncts(e.operand, not pol)
+        if isinstance(e, ast.BoolOp) and isinstance(e.op, ast.Or if pol else ast.And):
+            return [x for v in e.values for x in _disjuncts(v, pol)]
+        return [(e, pol)]
+
+    def _eq_br(node, lab, st):
+        if node.kind != 'test' or not isinstance(node.stmt, (ast.If, ast.While)):
+            return st
+        for e, pol in conjuncts(node.stmt.test, lab == 't'):
+            kinds = [_eq_atom(e2, p2) for e2, p2 in _disjuncts(e, pol)]
+            if None in kinds:
+                continue
+            names = {k[1] for k in kinds if isinstance(k, tuple)}
+            if kinds == ['notnone']:
+                st = st | {'eq:' + x.split(':', 1)[1] for x in st if x.startswith('eqn:')}
+            elif len(names) == 1 and 'notnone' not in kinds:
+                x = names.pop()
+                st = st | {'eqn:' + x} | (set() if 'none' in kinds else {'eq:' + x})
+        return frozenset(st)
+    eq_ins, _ = g.forward(frozenset(), _eq_tr, lambda a, b: a & b, edge_ok=_normal, branch_transfer=_eq_br)
+
+    def _equals_use(nid, name: str) -> bool:
+        return 'eq:' + name in eq_ins.get(nid, ())
 
     def _is_mark(n) -> bool:
         v_ = n.stmt.value
@@ -180,26 +257,48 @@ def rule_stale(ctx, m):
             return v_.value is True
         if isinstance(v_, ast.Call) and call_name(v_) == 'bool' and len(v_.args) == 1 and not v_.keywords:
             v_ = v_.args[0]
-        return norm(v_) in _IDENT or (isinstance(v_, ast.Name) and v_.id in eq_ins.get(n.id, ()))
+        return norm(v_) in _IDENT or (isinstance(v_, ast.Name) and _equals_use(n.id, v_.id))
 
     def _is_restore(n) -> bool:
         """a failed addition puts the flag back: the store sits in an exception handler (not on a normal path) and
         stores what the flag was on entry"""
         v_ = n.stmt.value
-        if n.id in eq_ins or not isinstance(v_, ast.Name):
+        if n.id in eq_ins or isinstance(v_, ast.Constant):
             return False
-        d = single_def_value(add.node, v_.id)
-        return d is not None and norm(d) == 'self.index_stale'
+        # (a saved local, or a component of a saved tuple / record of the bookkeeping; read before any store into the flag)
+        d = resolve_value(None, Ref(v_, add))
+        if d.comp or d.e is v_ or norm(d.e) != 'self.index_stale':
+            return False
+        at = [x for x in g.nodes if x.kind == 'stmt' and x.stmt is stmt_of(d.e)]
+        return bool(at) and not any(g.reaches(s_.id, at[0].id, edge_ok=_normal) for s_ in sets if s_.id != n.id)
     true_sets = [n for n in sets if _is_mark(n)]
     sets = [n for n in sets if n in true_sets or not _is_restore(n)]
+    if not true_sets:
+        # no mark at all: what add does store into the flag (on a normal path) is stated before the anchor is given up,
+        # and an add whose whole resolved call closure never stores into the flag cannot mark the index
+        from ..resolve import closure as _closure
+        for n in sets:
+            if n.id in eq_ins:
+                ctx.ob('C08-R1', add, norm(n.stmt), False,
+                       f'the only value add stores into the flag, `{norm(n.stmt.value)[:60]}`, is not true for every addition to an '
+                       'identified store: the index is not flagged stale and is never rebuilt', line=n.line)
+        if not sets and not any(isinstance(t, ast.Attribute) and t.attr == 'index_stale'
+                                for f in _closure(ctx.prog, [add]) if f.node is not add.node for t, _, _ in stores_to(f.node)):
+            ctx.ob('C08-R1', add, 'index marked stale on every successful identified add', False,
+                   'neither add nor any function it calls stores into index_stale: additions never flag the index, so it is '
+                   'never rebuilt', line=add.node.lineno)
     ctx.floor('C08-R1', len(true_sets), 1, 'store of a mark (`index_stale = True`) in add')
     # every normal path to a return passes the mark, or a branch that established "the store is not identified" and
     # nothing else (forward may-analysis: U = not marked yet, M = marked, E = exempt); any spelling of the branch:
     # `if self.indexable: mark`, a guard clause `if not self.indexable: return`, …
     mark_ids = {n.id for n in true_sets}
 
-    def _unidentified(test, truth) -> bool:
+    def _unidentified(test, truth, nid=None) -> bool:
         for e, pol in conjuncts(test, truth):
+            if isinstance(e, ast.Call) and call_name(e) == 'bool' and len(e.args) == 1 and not e.keywords:
+                e = e.args[0]
+            if isinstance(e, ast.Name) and not pol and nid is not None and _equals_use(nid, e.id):
+                return True                      # (a local that equals the identifier use of the store at this test)
             t = norm(e)
             if t in ('self.indexable', 'bool(self.indexable)', 'self.indexable is True', 'self.indexable == True',
                      'self.indexable is not False', 'self.indexable is not None') and not pol:
@@ -213,7 +312,7 @@ def rule_stale(ctx, m):
         return frozenset({'M'}) if node.id in mark_ids else st
 
     def _br(node, lab, st):
-        if node.kind == 'test' and isinstance(node.stmt, (ast.If, ast.While)) and _unidentified(node.stmt.test, lab == 't'):
+        if node.kind == 'test' and isinstance(node.stmt, (ast.If, ast.While)) and _unidentified(node.stmt.test, lab == 't', node.id):
             return frozenset('E' if x == 'U' else x for x in st)
         return st
     ins, _ = g.forward(frozenset({'U'}), _tr, lambda a, b: a | b, edge_ok=_normal, branch_transfer=_br)
@@ -237,10 +336,56 @@ def rule_stale(ctx, m):
     # between would clear it: check it is not before _write_trajectory
     wr = [n for n in g.nodes if n.stmt is not None and n.kind == 'stmt'
           and any(call_name(c).endswith('_write_trajectory') for c in calls_in(n.stmt))]
+    # (a mark set before the write - inside the guarded block, put back by the handler when the insertion fails - is the
+    # same flag at the return provided nothing between the mark and the write can clear it: no call that reaches a store
+    # into the flag; a refresh after the write takes the new trajectory in)
+    from ..resolve import closure
+
+    def _clears_after(n):
+        """(text, why) of the first construct on a normal path from the mark n to the write that can clear the flag
+        again; ('?', call text) for a call on self that is not resolved"""
+        seen_, st_ = set(), [b_ for b_, lab in g.succ[n.id] if lab != 'e']
+        while st_:
+            x = st_.pop()
+            if x in seen_ or x == n.id:
+                continue
+            seen_.add(x)
+            st_ += [b_ for b_, lab in g.succ[x] if lab != 'e']
+        for x in sorted(seen_):
+            nd = g.nodes[x]
+            if nd.stmt is None or not any(x == w.id or g.reaches(x, w.id, edge_ok=_normal) for w in wr):
+                continue                          # (after the write a refresh of the index takes the new trajectory in)
+            ex = nd.stmt if nd.kind == 'stmt' else nd.stmt.test if nd.kind == 'test' and hasattr(nd.stmt, 'test') \
+                else nd.stmt.iter if nd.kind == 'iter' else None
+            if nd.kind == 'with':
+                ex = ast.Tuple(elts=[i.context_expr for i in nd.stmt.items], ctx=ast.Load())
+            if ex is None:
+                continue
+            for c in calls_in(ex):
+                callee = resolve_call(ctx.prog, add, c)
+                if callee is None:
+                    if isinstance(c.func, ast.Attribute) and norm(c.func.value) == 'self':
+                        return '?', norm(c)[:60]
+                    continue
+                for f in closure(ctx.prog, [callee]):
+                    if any(isinstance(t, ast.Attribute) and t.attr == 'index_stale' for t, _, _ in stores_to(f.node)):
+                        return norm(c)[:60], f'{f.qualname} stores into index_stale'
+        return None
+
     for n in true_sets:
         ok = all(g.reaches(w.id, n.id, edge_ok=_normal) for w in wr)
-        ctx.ob('C08-R1', add, 'stale mark follows the write', ok,
-               'reachable from the write' if ok else 'stale mark is not on the path after the write',
+        why_bad = 'stale mark is not on the path after the write'
+        if not ok:
+            cl = _clears_after(n)
+            if cl is None:
+                ok = True
+            elif cl[0] == '?':
+                ctx.undecided('C08-R1', add, 'stale mark before the write', f'cannot say whether `{cl[1]}` clears the mark again')
+            else:
+                why_bad = (f'the mark is set before the write and `{cl[0]}` between the two can clear it again ({cl[1]}): the index is '
+                           'then rebuilt without the trajectory being added and not flagged afterwards')
+        ctx.ob('C08-R1', add, 'stale mark not cleared before the write', ok,
+               'set after the write, or nothing between the mark and the write can clear it' if ok else why_bad,
                line=n.line, nontrivial=False)
 
     # users
@@ -1298,6 +1443,22 @@ def truth_under(test: ast.expr, facts) -> bool | None:
     return None
 
 
+def conjuncts_links(test: ast.expr, pol: bool):
+    """`conjuncts`, with a chained comparison that holds (`0 <= pos < n`) split into its links (`0 <= pos`, `pos < n`);
+    one that does not hold is a disjunction and stays whole"""
+    out = []
+    for e, p in conjuncts(test, pol):
+        if p and isinstance(e, ast.Compare) and len(e.ops) > 1:
+            operands = [e.left] + list(e.comparators)
+            for i, op in enumerate(e.ops):
+                link = ast.copy_location(ast.Compare(left=operands[i], ops=[op], comparators=[operands[i + 1]]), e)
+                link._parent = getattr(e, '_parent', None)
+                out.append((link, True))
+        else:
+            out.append((e, p))
+    return out
+
+
 def value_arms(v: ast.expr, cond=()):
     """[(leaf value, [(test, truth)] that selects it)] of a value with conditional expressions in it"""
     if isinstance(v, ast.IfExp):
@@ -1324,7 +1485,7 @@ def path_facts(fn: ast.AST, domain=None):
 
     def facts_of(test, pol, depth=0):
         out = set()
-        for e, p in conjuncts(test, pol):
+        for e, p in conjuncts_links(test, pol):
             if isinstance(e, ast.Name) and depth < 4:
                 # a flag computed once from side-effect-free tests stands for those tests
                 v = single_def_value(fn, e.id)
@@ -1425,12 +1586,17 @@ def path_facts(fn: ast.AST, domain=None):
         exprs[t] = c
         return [{(t, p != fl)}]
 
-    def test_cases(test, pol):
-        """[facts] - the ways a branch test comes out as pol"""
+    def test_cases(test, pol, st=frozenset(), depth=0):
+        """[facts] - the ways a branch test comes out as pol (on a path that carries the facts st: a flag that this path
+        bound to a side-effect-free test stands for that test, whatever other branches bind it to)"""
         cases = [set()]
-        for e, p in conjuncts(test, pol):
+        for e, p in conjuncts_links(test, pol):
             if isinstance(e, ast.Name):
                 alts = [facts_of(e, p)]
+                d = def_on_path(e.id, st) if depth < 4 and len(local_defs(fn, e.id)) > 1 else None
+                if isinstance(d, (ast.Compare, ast.BoolOp, ast.UnaryOp)) \
+                        and all(call_name(c) in ('len', 'int', 'bool') for c in calls_in(d)):
+                    alts = [a | facts_of(e, p) for a in test_cases(d, p, st, depth + 1)]
             else:
                 alts = atom_cases(e, p)
             cases = [c | a for c in cases for a in alts]
@@ -1505,7 +1671,7 @@ def path_facts(fn: ast.AST, domain=None):
                 if lab == 'e' or b_ in seen:
                     continue
                 if lab in ('t', 'f') and node.kind == 'test' and isinstance(node.stmt, (ast.If, ast.While)):
-                    for new in test_cases(node.stmt.test, lab == 't'):
+                    for new in test_cases(node.stmt.test, lab == 't', out_st):
                         if any((t, not p_) in out_st or (t in exprs and truth_under(exprs[t], out_st) is (not p_))
                                for t, p_ in new):
                             continue
@@ -1759,32 +1925,95 @@ def rule_reader(ctx, m):
                             and not _is_none_on(x, fs)]
         return out
 
+    OUT_OF_RANGE = {(op, pl, p) for op in ('Lt', 'LtE', 'Gt', 'GtE', 'Eq', 'NotEq') for pl in (True, False) for p in (True, False)} \
+        - IN_RANGE - {('LtE', True, True), ('GtE', False, True), ('Gt', True, False), ('Lt', False, False)}
+
+    def _fact_alternatives(e, p):
+        """the ways the fact `e is p` can hold: [[(atom, truth)]] - a disjunction (a chained comparison or an `and` that
+        does not hold, an `or` that holds) gives one entry per disjunct, each split into its conjuncts"""
+        if isinstance(e, ast.UnaryOp) and isinstance(e.op, ast.Not):
+            return _fact_alternatives(e.operand, not p)
+        if isinstance(e, ast.BoolOp) and isinstance(e.op, ast.Or if p else ast.And):
+            return [alt for v_ in e.values for alt in _fact_alternatives(v_, p)]
+        if isinstance(e, ast.Compare) and len(e.ops) > 1 and not p:
+            operands = [e.left] + list(e.comparators)
+            out = []
+            for i, op in enumerate(e.ops):
+                link = ast.copy_location(ast.Compare(left=operands[i], ops=[op], comparators=[operands[i + 1]]), e)
+                link._parent = getattr(e, '_parent', None)
+                out.append([(link, False)])
+            return out
+        alts = [[]]
+        for e2, p2 in conjuncts_links(e, p):
+            if e2 is e or not isinstance(e2, (ast.BoolOp, ast.UnaryOp)) and not (isinstance(e2, ast.Compare) and len(e2.ops) > 1):
+                alts = [a + [(e2, p2)] for a in alts]
+            else:
+                alts = [a + b for a in alts for b in _fact_alternatives(e2, p2)]
+        return alts
+
+    def _miss_atom(e, p, fs):
+        """'miss' when the outcome says the found slot is out of range or holds another identifier (what justifies
+        answering None), ('pos', name, op, constant, truth) for a test of the found position / of the position read from
+        trajectory_index against a constant, else None"""
+        if isinstance(e, ast.Compare) and len(e.ops) == 1:
+            l, r_, op = e.left, e.comparators[0], type(e.ops[0]).__name__
+            for x, y, pos_left in ((l, r_, True), (r_, l, False)):
+                if op in ('Eq', 'NotEq') and (op == 'Eq') != p and is_fid(y) and isinstance(x, ast.Subscript) \
+                        and src_of(x.value) is not None:
+                    return 'miss'
+                if length_of(y) is not None and is_pos(x, fs) and (op, pos_left, p) in OUT_OF_RANGE:
+                    return 'miss'
+        tn = _test_on_name(e)
+        if tn is not None:
+            nm = ast.Name(id=tn[0], ctx=ast.Load())
+            r = on_path(nm, fs)
+            if is_pos(nm, fs) or (not r.comp and isinstance(r.e, ast.Subscript) and value_domain(r.e) == 'nonneg'):
+                return ('pos', tn[0], tn[1], tn[2], p)
+            d = r.e
+            if isinstance(d, ast.UnaryOp) and isinstance(d.op, ast.USub) and isinstance(d.operand, ast.Constant) \
+                    and isinstance(d.operand.value, (int, float)):
+                d = ast.Constant(value=-d.operand.value)
+            if not r.comp and isinstance(d, ast.Constant) \
+                    and (bool(d.value) if tn[1] == 'Truth' else _holds(tn[1], d.value, tn[2])) is p:
+                return 'neutral'                  # (a sentinel this path itself assigned: the test says nothing new)
+        return None
+
     def _lost_hit(per_path):
-        """text of the test that sends a confirmed hit to `return None`, or None"""
+        """text of the test that sends a hit to `return None`, or None.  A path that answers None is compared with every
+        answering path (bounds and equality confirmed): when everything that tells the two apart is a test of the found
+        position (or of the position read from trajectory_index) against constants that some position satisfies, and
+        nothing on the None path says that the slot is out of range or holds another identifier, the identifier in that
+        slot is not found although it was added (`if not pos: return None`, `if not 0 < pos < n: return None` lose slot
+        0).  Tests of anything else are not judged here."""
         if paths is None:
             return None
         good = None
         for fs in per_path:
-            if (fs & IN_MEMORY_FACTS) or confirmed(fs) != (True, True):
+            if fs & IN_MEMORY_FACTS:
                 continue
             good = _answering_paths() if good is None else good
             for gs_ in good:
                 extra = [(t, p_) for t, p_ in fs - gs_ if not t.startswith('@')]
-                if not extra:
+                if not extra or any(t not in fexprs for t, _ in extra):
                     continue
-                by_name: dict[str, list] = {}
+                combos = [[]]
                 for t, p_ in extra:
-                    tn = _test_on_name(fexprs[t]) if t in fexprs else None
-                    if tn is None:
-                        by_name = None
+                    combos = [c + a for c in combos for a in _fact_alternatives(fexprs[t], p_)]
+                    if len(combos) > 32:
+                        combos = []
                         break
-                    by_name.setdefault(tn[0], []).append((tn[1], tn[2], p_))
-                if not by_name:
-                    continue
-                if all(value_domain(on_path(ast.Name(id=x, ctx=ast.Load()), fs).e) == 'nonneg'
-                       and not on_path(ast.Name(id=x, ctx=ast.Load()), fs).comp
-                       and _nonneg_satisfies(tests) is True for x, tests in by_name.items()):
-                    return ' and '.join(('' if p_ else 'not ') + f'`{t}`' for t, p_ in sorted(extra))
+                shared = [k for t, p_ in fs & gs_ if t in fexprs and not t.startswith('@')
+                          for k in [_miss_atom(fexprs[t], p_, fs)] if isinstance(k, tuple)]
+                for atoms in combos:
+                    kinds = [k for k in (_miss_atom(e, p_, fs) for e, p_ in atoms) if k != 'neutral']
+                    if not kinds or any(k is None or k == 'miss' for k in kinds):
+                        continue
+                    by_name: dict[str, list] = {}
+                    for _, x, op, c, p_ in kinds + shared:
+                        by_name.setdefault(x, []).append((op, c, p_))
+                    if all(_nonneg_satisfies(tests) is True for tests in by_name.values()):
+                        return ' and '.join(('' if p_ else 'not ') + f'`{norm(e)}`' for e, p_ in atoms
+                                            if _miss_atom(e, p_, fs) != 'neutral')
         return None
 
     n_val = n_none = 0
@@ -1810,7 +2039,8 @@ def rule_reader(ctx, m):
                     lost = _lost_hit(none_paths)
                     if lost is not None:
                         ctx.ob('C08-R2', gf, txt + ' (None on this path) although the identifier was found', False,
-                               f'on a path where the found slot holds the requested identifier, None is returned when {lost}: '
+                               f'None is returned when {lost} - which the slot / the position of an added trajectory satisfies - on a path '
+                               'where nothing says that the slot is out of range or holds another identifier: '
                                'a trajectory that was added with that identifier is not found', line=ret.lineno)
                     if not per_path:
                         n_none += 1
@@ -1826,7 +2056,8 @@ def rule_reader(ctx, m):
                 lost = _lost_hit(per_path)
                 if lost is not None:
                     ctx.ob('C08-R2', gf, txt + ' although the identifier was found', False,
-                           f'on a path where the found slot holds the requested identifier, None is returned when {lost}: '
+                           f'None is returned when {lost} - which the slot / the position of an added trajectory satisfies - on a path '
+                           'where nothing says that the slot is out of range or holds another identifier: '
                            'a trajectory that was added with that identifier is not found', line=ret.lineno)
                 continue
             n_val += 1
@@ -1978,9 +2209,22 @@ def _whole_variable(t: ast.Subscript) -> bool:
         or (isinstance(sl, ast.Constant) and (sl.value is Ellipsis or isinstance(sl.value, str)))
 
 
+_COPIES_MEMO: dict = {}
+
+
 def index_copies(prog, methods: dict):
     """{attr: [(FunctionInfo, stmt)]}: attributes of self that are given a value built from the variables of the
     store's index group (read from them, or the very columns that are being written into them)."""
+    key = (id(prog), tuple((k, id(fi.node)) for k, fi in methods.items()))
+    hit = _COPIES_MEMO.get(key)
+    if hit is not None and hit[0] is prog and all(a is b for a, b in zip(hit[1], methods.values())):
+        return {a: list(v) for a, v in hit[2].items()}
+    out = _index_copies(prog, methods)
+    _COPIES_MEMO[key] = (prog, list(methods.values()), out)
+    return {a: list(v) for a, v in out.items()}
+
+
+def _index_copies(prog, methods: dict):
     out: dict[str, list] = {}
     for fi in methods.values():
         written = set()
